@@ -171,7 +171,7 @@ impl Exec {
         // every instance op: <op> <inst> args...
         let id = pu(t[1]);
         if let Some(Inst::Poisoned) = self.insts.get(&id) {
-            if !t[0].ends_with(".new") && !t[0].contains(".new") && !t[0].ends_with(".with") && !t[0].ends_with(".props") {
+            if !t[0].ends_with(".new") && !t[0].contains(".new") && !t[0].ends_with(".with") && !t[0].ends_with(".props") && !t[0].starts_with("mem.") {
                 return Some("poisoned".into());
             }
         }
@@ -280,6 +280,22 @@ impl Exec {
                 );
                 return "ok".into();
             }
+            "mem.cuckoo" => {
+                // heap bytes held by a freshly constructed filter (the packed table)
+                let before = crate::alloc::live();
+                let f = CuckooFilter::<u64, ScriptRng, ScriptBH>::with_params_and_hash(
+                    ScriptRng::new(1), pu(t[2]) as usize, pu(t[3]) as usize, pu(t[4]) as usize, bh);
+                let held = crate::alloc::live() - before;
+                drop(f);
+                return held.to_string();
+            }
+            "mem.qf" => {
+                let before = crate::alloc::live();
+                let f = QuotientFilter::<u64, ScriptBH>::with_params_and_hash(pu(t[2]) as usize, pu(t[3]) as usize, bh);
+                let held = crate::alloc::live() - before;
+                drop(f);
+                return held.to_string();
+            }
             "set.new" => {
                 self.insts.insert(id, Inst::Set(HashSet::new()));
                 return "ok".into();
@@ -348,6 +364,13 @@ impl Exec {
             }
             ("hll.addh", Inst::Hll(h)) => {
                 h.add_hashed(pu(t[2]));
+                "ok".into()
+            }
+            ("hll.addmany", Inst::Hll(h)) => {
+                let mut sm = crate::script::SplitMix(pu(t[2]));
+                for _ in 0..pu(t[3]) {
+                    h.add_hashed(sm.next());
+                }
                 "ok".into()
             }
             ("hll.merge", Inst::Hll(h)) => {
